@@ -64,6 +64,12 @@ func bedClasses(f iogen.BedFile) []string {
 	if len(f.Recs) >= 2 {
 		l = append(l, "records>=2")
 	}
+	for _, r := range f.Recs {
+		if len(r.BlockSizes) > 500 && f.M == 12 {
+			l = append(l, "line>4096")
+			break
+		}
+	}
 	if nt {
 		l = append(l, vlib.NT)
 	}
@@ -74,7 +80,7 @@ func TestBed(t *testing.T) {
 	vlib.Run(t, vlib.Prop[iogen.BedFile]{Name: "bed-roundtrip", Checks: 4000, Thorough: 300000,
 		Gen:   func(t *rapid.T) iogen.BedFile { return iogen.GenBedFile(t, 6) },
 		Check: checkBed, Classes: bedClasses,
-		MinFrac: map[string]float64{"narrower-write": 0.2, "full-bed12": 0.08, "negative-or-extreme-int": 0.3}})
+		MinFrac: map[string]float64{"narrower-write": 0.2, "full-bed12": 0.08, "negative-or-extreme-int": 0.3, "line>4096": 0.01}})
 }
 
 func checkGff(f iogen.GffFile) *vlib.Failure {
@@ -115,6 +121,9 @@ func gffClasses(f iogen.GffFile) []string {
 			if it.Start < 0 {
 				seen["negative-start"] = true
 			}
+			if len(it.Comments) > 4000 {
+				seen["line>4096"] = true
+			}
 		}
 		if it.Kind == "seq" && it.Len > f.Width {
 			seen["inline-seq-multiline"] = true
@@ -141,5 +150,5 @@ func TestGff(t *testing.T) {
 	vlib.Run(t, vlib.Prop[iogen.GffFile]{Name: "gff-roundtrip", Checks: 4000, Thorough: 300000,
 		Gen:   func(t *rapid.T) iogen.GffFile { return iogen.GenGffFile(t, 8) },
 		Check: checkGff, Classes: gffClasses,
-		MinFrac: map[string]float64{"attrs>=2": 0.2, "attrs+comments": 0.1, "infinite-score": 0.02, "inline-seq-multiline": 0.1, "kind-region": 0.2, "start=0": 0.1, "negative-start": 0.05}})
+		MinFrac: map[string]float64{"attrs>=2": 0.2, "attrs+comments": 0.1, "infinite-score": 0.02, "inline-seq-multiline": 0.1, "kind-region": 0.2, "start=0": 0.1, "negative-start": 0.05, "line>4096": 0.01}})
 }
